@@ -942,6 +942,8 @@ impl Compiler {
 
         // If max_items is None, we can add an infinite tail of items later
         let n_to_add = max_items.map_or(arr.prefix_items.len().max(min_items), |max| max);
+        // every item becomes a symbol of one rule (minItems 4294967296 would loop for hours)
+        self.builder.check_rule_len(n_to_add)?;
 
         for i in 0..n_to_add {
             let item = if i < arr.prefix_items.len() {
